@@ -503,7 +503,216 @@ func c12Batch(c *Ctx, a *sketchAnchors) {
 			}
 		}
 	}
+	if bad != "" {
+		// the batch query may have been rewritten over a shared helper (total counts computed once): decide equivalence
+		// with the single query path by path instead
+		if okEq, why := batchEquivalent(c, a); okEq {
+			bad = ""
+			c.R.count("batch_equivalence_used", 1)
+			n++
+		} else {
+			bad += "; and not path-equivalent to the single query: " + why
+		}
+	}
 	c.R.check(bad == "" && n > 0, rule, shortFn(f)+"/element-is-single-query", shortFn(f), c.fpos(f),
-		"values[i] = first result of GetValueAtQuantile(quantiles[i]) on the same receiver; result has len(quantiles)", firstNonEmpty(bad, fmt.Sprintf("%d element store occurrence(s)", n)))
+		"values[i] = first result of GetValueAtQuantile(quantiles[i]) on the same receiver (or a path-by-path identical computation over a shared helper); result has len(quantiles)", firstNonEmpty(bad, fmt.Sprintf("%d element store occurrence(s)", n)))
 	_ = strings.Join
+}
+
+// batchEquivalent decides, when the batch query no longer calls the single query, that each element is computed
+// EXACTLY like the single query: with every new helper executed inline, every element store of the batch —
+// for the first and for a later element — matches a success path of GetValueAtQuantile: the same value term and the
+// same set of branch decisions that depend on the quantile, under the substitution quantiles[k] ↦ q; the decisions
+// of the single query that do not depend on q (emptiness) are made by the batch before its first element; and every
+// error return of the batch matches an error path of the single query (same decisions on the offending quantile,
+// same error term). Terms are compared structurally, commutative operators in either order.
+func batchEquivalent(c *Ctx, a *sketchAnchors) (bool, string) {
+	single := c.P.DeclaredMethod(a.DDSketch, "GetValueAtQuantile")
+	batch := c.P.DeclaredMethod(a.DDSketch, "GetValuesAtQuantiles")
+	if single == nil || batch == nil {
+		return false, "single or batch query not found"
+	}
+	sp, okS := exec(c, single, nil, 1)
+	bp, okB := exec(c, batch, nil, 3)
+	if !okS || !okB || len(sp) == 0 || len(bp) == 0 {
+		return false, "path enumeration incomplete"
+	}
+	isElemQ := func(t *Term) bool { return t.Op == "index" && t.Args[0].isParam(1) && t.Args[1].Op == "const" }
+	var eq func(b, s *Term) bool
+	eq = func(b, s *Term) bool {
+		if b == nil || s == nil {
+			return b == s
+		}
+		b, s = b.unver(), s.unver()
+		if isElemQ(b) && s.isParam(1) {
+			return true
+		}
+		if b.Op != s.Op || b.Sym != s.Sym || len(b.Args) != len(s.Args) {
+			// phi names differ between functions only when not path-resolved; treat differently named opaque atoms as unequal
+			return false
+		}
+		all := true
+		for i := range b.Args {
+			if !eq(b.Args[i], s.Args[i]) {
+				all = false
+				break
+			}
+		}
+		if all {
+			return true
+		}
+		if b.Op == "bin" && len(b.Args) == 2 && (b.Sym == "+" || b.Sym == "*" || b.Sym == "==" || b.Sym == "!=") {
+			return eq(b.Args[0], s.Args[1]) && eq(b.Args[1], s.Args[0])
+		}
+		return false
+	}
+	dependsOnQ := func(t *Term, batchSide bool) bool {
+		hit := false
+		t.walk(func(x *Term) bool {
+			if batchSide && isElemQ(x) || !batchSide && x.isParam(1) {
+				hit = true
+			}
+			return true
+		})
+		return hit
+	}
+	var isLiteral func(t *Term) bool
+	isLiteral = func(t *Term) bool {
+		switch {
+		case t.Op == "const":
+			return true
+		case t.Op == "builtin" && t.Sym == "len" && len(t.Args) == 1 && t.Args[0].isParam(1):
+			return true // loop control over len(quantiles) is not a decision about the data
+		case t.Op == "bin" || t.Op == "un":
+			for _, x := range t.Args {
+				if !isLiteral(x) {
+					return false
+				}
+			}
+			return true
+		}
+		return false
+	}
+	type cond struct {
+		t     *Term
+		taken bool
+	}
+	// conds of a single-query path, split into q-dependent and state-only
+	split := func(p *Path) (qd, st []cond) {
+		for _, cd := range p.Conds {
+			if isLiteral(cd.Term) {
+				continue
+			}
+			if dependsOnQ(cd.Term, false) {
+				qd = append(qd, cond{cd.Term, cd.Taken})
+			} else {
+				st = append(st, cond{cd.Term, cd.Taken})
+			}
+		}
+		return
+	}
+	sameSet := func(bc, sc []cond) bool {
+		if len(bc) != len(sc) {
+			return false
+		}
+		used := make([]bool, len(sc))
+		for _, x := range bc {
+			found := false
+			for j, y := range sc {
+				if !used[j] && x.taken == y.taken && eq(x.t, y.t) {
+					used[j] = true
+					found = true
+					break
+				}
+			}
+			if !found {
+				return false
+			}
+		}
+		return true
+	}
+	nElems := 0
+	for _, p := range bp {
+		prev := 0
+		var stateSeen []cond
+		for _, e := range p.Effects {
+			if !(e.Kind == "store" && e.Addr.Op == "index" && e.Addr.Args[1].Op == "const" && e.Addr.Args[0].Op == "make") {
+				continue
+			}
+			nElems++
+			var qd []cond
+			for _, cd := range p.Conds {
+				if cd.Seq <= prev || cd.Seq >= e.Seq || isLiteral(cd.Term) {
+					continue
+				}
+				if dependsOnQ(cd.Term, true) {
+					qd = append(qd, cond{cd.Term, cd.Taken})
+				} else {
+					stateSeen = append(stateSeen, cond{cd.Term, cd.Taken})
+				}
+			}
+			matched := false
+			for _, s := range sp {
+				if s.RetNil(1) != 1 {
+					continue
+				}
+				sq, sst := split(s)
+				if !eq(e.Val, s.RetT[0]) || !sameSet(qd, sq) {
+					continue
+				}
+				// every state-only decision of the single query has been made by the batch by now, the same way
+				okState := true
+				for _, y := range sst {
+					f := false
+					for _, x := range stateSeen {
+						if x.taken == y.taken && eq(x.t, y.t) {
+							f = true
+						}
+					}
+					if !f {
+						okState = false
+					}
+				}
+				if okState {
+					matched = true
+					break
+				}
+			}
+			if !matched {
+				return false, fmt.Sprintf("element %s on path [%s] is not computed like any success path of the single query: value %s", e.Addr.Args[1].Sym, p.String(), e.Val.Key())
+			}
+			prev = e.Seq
+		}
+		// error return: the decisions after the last element match an error path of the single query
+		if p.RetNil(1) == -1 {
+			var qd, st []cond
+			for _, cd := range p.Conds {
+				if cd.Seq <= prev || isLiteral(cd.Term) {
+					continue
+				}
+				if dependsOnQ(cd.Term, true) {
+					qd = append(qd, cond{cd.Term, cd.Taken})
+				} else {
+					st = append(st, cond{cd.Term, cd.Taken})
+				}
+			}
+			matched := false
+			for _, s := range sp {
+				if s.RetNil(1) != -1 || !eq(p.RetT[1], s.RetT[1]) {
+					continue
+				}
+				sq, sst := split(s)
+				if sameSet(qd, sq) && (len(sst) == 0 || sameSet(st, sst) || len(st) == 0 && prev > 0) {
+					matched = true
+				}
+			}
+			if !matched {
+				return false, fmt.Sprintf("error return on path [%s] does not correspond to an error path of the single query: %s", p.String(), describeRet(p))
+			}
+		}
+	}
+	if nElems == 0 {
+		return false, "no element store found in the batch query"
+	}
+	return true, fmt.Sprintf("%d element computations matched against %d single-query paths", nElems, len(sp))
 }
